@@ -235,6 +235,90 @@ func classes() []class {
 			_, err := dm(e).BatchRemove(ctx, &pb.BatchRequest{DatasetId: e.ds, Items: batch(2, func(i int, it *pb.BatchItem) { it.Id = make([]byte, 40) })})
 			return err
 		}},
+		// ---------------- writes to items that exist (the apply path really runs)
+		{"update.present.emptyvector", false, func(e *env, ctx context.Context) error {
+			_, err := dm(e).Update(ctx, &pb.UpdateRequest{DatasetId: e.ds, Id: e.present})
+			return err
+		}},
+		{"update.present.nan", false, func(e *env, ctx context.Context) error {
+			_, err := dm(e).Update(ctx, &pb.UpdateRequest{DatasetId: e.ds, Id: e.present, Value: []float32{1, float32(math.NaN()), 2}})
+			return err
+		}},
+		{"update.present.meta", true, func(e *env, ctx context.Context) error {
+			_, err := dm(e).Update(ctx, &pb.UpdateRequest{DatasetId: e.ds, Id: e.present, Value: vec(3, 4), Metadata: map[string]string{"new": "m", "old": ""}})
+			return err
+		}},
+		{"update.present.key256", false, func(e *env, ctx context.Context) error {
+			_, err := dm(e).Update(ctx, &pb.UpdateRequest{DatasetId: e.ds, Id: e.present, Value: vec(3, 4), Metadata: map[string]string{rep(256): "v"}})
+			return err
+		}},
+		{"insert.present", false, ins(id16(50), vec(3, 1), nil)},
+		{"remove.present", true, func(e *env, ctx context.Context) error {
+			_, err := dm(e).Remove(ctx, &pb.RemoveRequest{DatasetId: e.ds, Id: e.present})
+			return err
+		}},
+		{"remove.all", true, func(e *env, ctx context.Context) error {
+			for i := 50; i < 56; i++ {
+				if _, err := dm(e).Remove(ctx, &pb.RemoveRequest{DatasetId: e.ds, Id: id16(byte(i))}); err != nil {
+					return err
+				}
+			}
+			return nil
+		}},
+		{"bupdate.present.ok", true, func(e *env, ctx context.Context) error {
+			_, err := dm(e).BatchUpdate(ctx, &pb.BatchRequest{DatasetId: e.ds, Items: []*pb.BatchItem{{Id: e.present, Value: vec(3, 2)}, {Id: id16(51), Value: vec(3, 3), Metadata: map[string]string{"x": "y"}}}})
+			return err
+		}},
+		{"bupdate.present.dimshort", false, func(e *env, ctx context.Context) error {
+			_, err := dm(e).BatchUpdate(ctx, &pb.BatchRequest{DatasetId: e.ds, Items: []*pb.BatchItem{{Id: e.present, Value: vec(1, 2)}, {Id: id16(51), Value: vec(3, 3)}}})
+			return err
+		}},
+		{"bupdate.present.emptyvector", false, func(e *env, ctx context.Context) error {
+			_, err := dm(e).BatchUpdate(ctx, &pb.BatchRequest{DatasetId: e.ds, Items: []*pb.BatchItem{{Id: id16(52), Value: vec(3, 3)}, {Id: e.present}, {Id: id16(53)}}})
+			return err
+		}},
+		{"bupdate.present.dimlong", false, func(e *env, ctx context.Context) error {
+			_, err := dm(e).BatchUpdate(ctx, &pb.BatchRequest{DatasetId: e.ds, Items: []*pb.BatchItem{{Id: e.present, Value: vec(40, 2)}, {Id: id16(54), Value: vec(40, 2)}}})
+			return err
+		}},
+		{"bupdate.present.nan", false, func(e *env, ctx context.Context) error {
+			_, err := dm(e).BatchUpdate(ctx, &pb.BatchRequest{DatasetId: e.ds, Items: []*pb.BatchItem{{Id: e.present, Value: []float32{float32(math.NaN()), 0, 0}}}})
+			return err
+		}},
+		{"bupdate.present.key256", false, func(e *env, ctx context.Context) error {
+			_, err := dm(e).BatchUpdate(ctx, &pb.BatchRequest{DatasetId: e.ds, Items: []*pb.BatchItem{{Id: e.present, Value: vec(3, 1), Metadata: map[string]string{rep(256): "v"}}}})
+			return err
+		}},
+		{"bupdate.present.twice", false, func(e *env, ctx context.Context) error {
+			_, err := dm(e).BatchUpdate(ctx, &pb.BatchRequest{DatasetId: e.ds, Items: []*pb.BatchItem{{Id: e.present, Value: vec(3, 1)}, {Id: e.present, Value: vec(3, 2)}}})
+			return err
+		}},
+		{"binsert.present", false, func(e *env, ctx context.Context) error {
+			_, err := dm(e).BatchInsert(ctx, &pb.BatchRequest{DatasetId: e.ds, Items: []*pb.BatchItem{{Id: e.present, Value: vec(3, 1)}, {Id: id16(60), Value: vec(3, 2)}}})
+			return err
+		}},
+		{"bremove.present", true, func(e *env, ctx context.Context) error {
+			_, err := dm(e).BatchRemove(ctx, &pb.BatchRequest{DatasetId: e.ds, Items: []*pb.BatchItem{{Id: e.present}, {Id: id16(51)}, {Id: id16(52)}}})
+			return err
+		}},
+		{"bremove.present.twice", false, func(e *env, ctx context.Context) error {
+			_, err := dm(e).BatchRemove(ctx, &pb.BatchRequest{DatasetId: e.ds, Items: []*pb.BatchItem{{Id: e.present}, {Id: e.present}}})
+			return err
+		}},
+		{"pbupdate.present.dim", false, func(e *env, ctx context.Context) error {
+			for _, p := range e.parts {
+				dm(e).PartitionBatchUpdate(ctx, &pb.PartitionBatchRequest{DatasetId: e.ds, PartitionId: p, Items: []*pb.BatchItem{{Id: e.present, Value: vec(1, 1)}, {Id: id16(51)}}})
+			}
+			return nil
+		}},
+		{"pbremove.present", true, func(e *env, ctx context.Context) error {
+			for _, p := range e.parts {
+				if _, err := dm(e).PartitionBatchRemove(ctx, &pb.PartitionBatchRequest{DatasetId: e.ds, PartitionId: p, Items: []*pb.BatchItem{{Id: e.present}}}); err != nil {
+					return err
+				}
+			}
+			return nil
+		}},
 		// ---------------- partition-level RPCs (normally issued by peers)
 		{"pbinsert.foreignpartition", false, func(e *env, ctx context.Context) error {
 			_, err := dm(e).PartitionBatchInsert(ctx, &pb.PartitionBatchRequest{DatasetId: e.ds, PartitionId: id16(9), Items: batch(1, nil)})
@@ -482,6 +566,15 @@ func main() {
 			cancel()
 			if err != nil {
 				ev["setup"] = "insert: " + err.Error()
+			}
+			// more items, so that both partitions hold several vertices
+			for i := 51; i < 56 && ev["setup"] == ""; i++ {
+				ctx, cancel := context.WithTimeout(context.Background(), 5*time.Second)
+				_, err := pb.NewDataManagerClient(conn).Insert(ctx, &pb.InsertRequest{DatasetId: e.ds, Id: id16(byte(i)), Value: vec(3, float32(i-45))})
+				cancel()
+				if err != nil {
+					ev["setup"] = "insert: " + err.Error()
+				}
 			}
 		}
 		if ev["setup"] != "" {
